@@ -24,7 +24,9 @@ CLAUSES = (
     'from get_tasks() after (never before) a task with such an offset is put '
     'into or deleted from active_tasks, and every change of membership sets '
     'active_tasks_changed before any method that reads the cached pool list '
-    'is called. Not decided: that the computed point equals '
+    'is called; a task definition records its largest future offset for '
+    'ICP-relative and point-relative triggers alike. '
+    'Not decided: that the computed point equals '
     'the n-th recurrence point (sequence arithmetic), deadlock freedom.')
 
 TP = 'task_pool'
